@@ -166,7 +166,21 @@ try:
         orig_cc(connection_id)
     p.process_message = process_message
     p.close_connection = close_connection
+    for c in %(commands)r:
+        ctl.process_command(c)
+    halts = []
     gdb.execute('run')
+    for _ in range(10000):
+        try:
+            inf = gdb.selected_inferior()
+            alive = inf.pid != 0 and len(inf.threads()) > 0
+        except Exception:
+            alive = False
+        if not alive:
+            break
+        # gdb halted the program: at which message?
+        halts.append(len([r for r in records if r['kind'] == 'msg']))
+        gdb.execute('continue')
     status = 'ok'
 except BaseException as e:
     status = 'harness: ' + ''.join(traceback.format_exception(type(e), e, e.__traceback__))[-1500:]
@@ -174,7 +188,7 @@ try:
     alive = gdb.selected_inferior().pid != 0
 except Exception:
     alive = None
-json.dump(dict(status=status, records=records, still_alive=alive, out=out.buffer if 'out' in dir() else '', err=err.buffer if 'err' in dir() else '',
+json.dump(dict(status=status, records=records, halts=halts if 'halts' in dir() else [], still_alive=alive, out=out.buffer if 'out' in dir() else '', err=err.buffer if 'err' in dir() else '',
                connections=[[c.name(), c.is_open(), len(c.messages())] for c in cm.connections()] if 'cm' in dir() else []),
           open(%(result)r, 'w'))
 '''
@@ -184,7 +198,7 @@ def available():
     return cli.real_gdb() is not None and shutil.which('gcc') is not None
 
 
-def run_steps(steps, scratch):
+def run_steps(steps, scratch, commands=()):
     """returns dict(status=..., records=[...]) or dict(status='skipped: ...')"""
     if not available():
         return dict(status='skipped: no gdb or no gcc')
@@ -194,7 +208,7 @@ def run_steps(steps, scratch):
     if r.returncode != 0:
         return dict(status='harness: mock does not compile: ' + r.stderr[-800:])
     result = scratch.path('result.json')
-    harness = scratch.write('harness.py', HARNESS % dict(repo=env.REPO, result=result))
+    harness = scratch.write('harness.py', HARNESS % dict(repo=env.REPO, result=result, commands=list(commands)))
     e = cli.base_env()
     try:
         g = subprocess.run([cli.real_gdb(), '-batch', '-nx', '-ex', 'set confirm off', '-ex', 'set debuginfod enabled off', '-ex', 'source ' + harness, exe],
